@@ -34,6 +34,20 @@ def run(chk):
                     # only disagreements that the one-shard free-running baseline does not show belong to C05
                     rep["by_sig"] = {s: v for s, v in rep["by_sig"].items() if s not in base_sigs}
                     chk.classify("tracker", args, rep)
+    # R2: the same random history with 1 shard and with k shards under randomly delayed workers: records and ids equal
+    from checks import r2_common as r2
+    for i in range(3 if quick else 40):
+        kind = ("sort", "visual")[i % 2]
+        seed = chk.seed * 1000 + 700 + i
+        kw = dict(steps=200, metric="iou" if i % 2 == 0 else "maha", max_idle=2, objects=4, spread=90, extra=["--no-lifecycle", "1"])
+        a = r2.record(chk, f"c05-one-{i}", kind, seed, shards=1, **kw)
+        kw["extra"] = kw["extra"] + ["--delay-us", "300"]
+        b = r2.record(chk, f"c05-many-{i}", kind, seed, shards=(2, 3, 5, 8)[i % 4], **kw)
+        ok, rej = r2.pairing(chk, f"c05-pair-{i}", a, b, "equal")
+        chk.cov["evaluations"] += 1
+        chk.cov["distinct_nontrivial"] += 1
+        if not ok:
+            chk.violation("c05:shard-count-or-schedule-changes-results", {"engine": "pairing", "a": str(a), "b": str(b), "rejected": rej[:2000]})
     chk.assumptions.append("R2 (free-world) run-against-run comparison is part of the trace engine; here every run is compared with the specification's single expected output")
     chk.finish(RULE, extra={"shard_counts": list(shard_counts)}, exhaustive=False)
 
